@@ -100,9 +100,14 @@ def get_ranges(headervalue, content_length):
         return None
 
     result = []
-    _bytesunit, sep, byteranges = headervalue.partition('=')
+    bytesunit, sep, byteranges = headervalue.partition('=')
     if not sep:
         # Not a ranges-specifier at all; see the rfc quote below.
+        return None
+    if bytesunit.strip().lower() != 'bytes':
+        # From rfc 7233 sec 3.1:
+        # "An origin server MUST ignore a Range header field that
+        # contains a range unit it does not understand."
         return None
     for brange in byteranges.split(','):
         start, sep, stop = (x.strip() for x in brange.partition('-'))
